@@ -3,7 +3,9 @@ CONSTANTS
   P = 2
   NPar = 1
   ErFrom = 2
-  TocFrom = 2
+  LogStart = 0
+  LogEnd = 0
+  ParStart = 1
   NAtt = 2
   MaxFaults = 1
   FaultBy <- LinkFaults
